@@ -176,7 +176,38 @@ func (c *Ctx) insideJoinedSection(fn *ssa.Function, lockPath string) bool {
 					}
 				}
 			}
-			return c.joinedBeforeRelease(parent, g, parentLock, pchans)
+			if c.joinedBeforeRelease(parent, g, parentLock, pchans) {
+				return true
+			}
+			// the goroutine is started by a helper that hands the channel back: the lock is one that every caller of the
+			// helper holds, and every caller waits on the channel it gets before it releases the lock
+			returnsChan := false
+			for _, r := range core.ReturnInstrs(parent) {
+				for _, res := range r.Results {
+					if pchans[c.M.ValPath(res)] || pchans[c.M.AddrPath(res)] {
+						returnsChan = true
+					}
+					if ct, ok := res.(*ssa.ChangeType); ok && (pchans[c.M.ValPath(ct.X)] || pchans[c.M.AddrPath(ct.X)]) {
+						returnsChan = true
+					}
+				}
+			}
+			sites := core.PlainSites(parent)
+			if !returnsChan || len(sites) == 0 || parent.Signature.Results().Len() != 1 {
+				return false
+			}
+			for _, site := range sites {
+				callerLock := ""
+				for _, l := range c.lockedAt(site.Parent(), site) {
+					if t, ok := c.translatePath(l, site, parent); ok && t == parentLock {
+						callerLock = l
+					}
+				}
+				if callerLock == "" || !c.joinedBeforeRelease(site.Parent(), site, callerLock, map[string]bool{c.M.ValPath(site): true}) {
+					return false
+				}
+			}
+			return true
 		}
 	}
 	return false
